@@ -105,7 +105,13 @@ type qctl struct {
 	cancel context.CancelFunc
 	atMock bool
 	done   bool
+
+	acqOnce, gateOnce sync.Once
 }
+
+// channels are closed at most once, whatever the implementation under test does
+func (c *qctl) closeAcq() { c.acqOnce.Do(func() { close(c.acq) }) }
+func (c *qctl) openGate() { c.gateOnce.Do(func() { close(c.gate) }) }
 
 type world struct {
 	mu sync.Mutex
@@ -135,7 +141,7 @@ func (m mockResolver) Resolve(_ context.Context, qs string) (hosts.Hosts, error)
 		return nil, errors.New("unknown query")
 	}
 	if c.spec.Blocking {
-		close(c.acq)
+		c.closeAcq()
 		<-c.gate
 	}
 	switch {
@@ -344,7 +350,7 @@ func execute(in *input) (obs []obsOp, err error) {
 			// another user of the shared semaphore: takes a slot directly, gives it back at finish
 			go func() {
 				sem <- struct{}{}
-				close(c.acq)
+				c.closeAcq()
 				<-c.gate
 				<-sem
 				c.ret <- item{Q: o.Q, Code: "ok"}
@@ -397,13 +403,16 @@ func execute(in *input) (obs []obsOp, err error) {
 		if c.spec.Exit == "cancel" {
 			c.cancel()
 		}
-		close(c.gate)
+		c.openGate()
 		it := wait(c, false)
-		items := []item{it}
 		if it.Code == "hang" {
+			// returned=false: the query was told to leave (result / error / panic / cancellation) and did not
+			// come back within the watchdog; its slot is sampled as still held
+			it.Msg = "did not return after " + c.spec.Exit + "; slot still held"
 			hung = true
-			return items, nil
+			return []item{it}, nil
 		}
+		items := []item{it}
 		live--
 		// the freed slot serves the parked queries, oldest first
 		for len(pending) > 0 && live < in.Max && !hung {
@@ -476,10 +485,10 @@ func execute(in *input) (obs []obsOp, err error) {
 	for _, c := range w.qs {
 		c.cancel()
 		if !c.done && c.atMock {
-			close(c.gate)
+			c.openGate()
 			c.atMock = false
 		} else if !c.done && !c.atMock && c.spec.Blocking {
-			go func(c *qctl) { <-c.acq; close(c.gate) }(c)
+			go func(c *qctl) { <-c.acq; c.openGate() }(c)
 		}
 	}
 	w.mu.Unlock()
